@@ -49,8 +49,26 @@ def _plain(t):
     return T.degate(T.subst(t, fn))
 
 
+def _choosers(t):
+    """the atoms of the tests that choose between the alternatives of a merged value (without polarity: which test picks which
+    alternative is in the alternatives' own conditions when they are stored; here the point is *what* is tested)"""
+    out = set()
+    if t is None:
+        return out
+    for x in T.walk(t):
+        if x[0] in ("gate", "ifexp"):
+            for a in facts.flat_atoms([(x[1], True)]):
+                c, _ = facts.canon_guard((_plain(a[0]), True))
+                out.add("?" + T.show(c))
+    return out
+
+
 def _conds(cx, ev):
-    atoms = set()
+    atoms = set(_choosers(ev.raw))
+    for g in ev.raw_guards:
+        atoms |= _choosers(g[0])
+    for l in ev.loops:
+        atoms |= set("in " + T.show(_plain(l[1]))[:200] for _ in (0,))
     # (all conditions in force, the negations of earlier early exits included: ``if not x: return`` before a statement and
     # ``if x:`` around it say the same)
     for a in facts.flat_atoms(g for g in ev.guards if g[0][0] != "exc"):
@@ -128,3 +146,29 @@ def r_legacy_facts(model, rep):
                facts={"facts": len(got)})
     if n < 40:
         raise AnalysisError("vacuity guard: R-LEGACY-FACTS compared %d frozen facts (floor 40)" % n)
+
+
+def r_fix_path_conversion(model, rep, classes=("treeinfo.Images", "treeinfo.Stage2", "treeinfo.Checksums")):
+    """what _fix_path makes of a path of a pre-productmd file, case by case (scenario evaluation, whatever the spelling: nested
+    ifs, guard clauses, a shared helper): below '/os/' -> the part after it; any other absolute path -> without the leading
+    slashes; a relative path -> itself"""
+    for q in classes:
+        f = model.own_method(q, "_fix_path")
+        cx = facts.fctx(model, f)
+        path = ("param", cx.params[1])
+        absolute = ("call", ("attr", path, "startswith"), (("const", "/"),), ())
+        has_os = ("cmp", ("in",), (("const", "/os/"), path))
+        below = ("sub", path, ("slice", ("binop", "+", ("call", ("attr", path, "find"), (("const", "/os/"),), ()), ("const", 4)), None, None))
+        strip = ("call", ("attr", path, "lstrip"), (("const", "/"),), ())
+        ok, why = True, ""
+        for ab in (False, True):
+            for os_ in (False, True):
+                sc = facts.at_version(cx, (0, 0), atoms={absolute: ab, has_os: os_})
+                vals = [T.degate(v) for v in sc.returns()]
+                want = path if not ab else (below if os_ else strip)
+                if vals != [want]:
+                    ok = False
+                    why = "a pre-productmd path that is %s%s becomes %s, confirmed: %s" % (
+                        "absolute" if ab else "relative", (" and %s '/os/'" % ("contains" if os_ else "does not contain")),
+                        [T.show(v)[:60] for v in vals], T.show(want))
+        rep.ob("R-FIX-PATH", "%s._fix_path:legacy-conversion" % q, ok, site=cx.site(f.node), msg="" if ok else why)
